@@ -53,6 +53,25 @@ class SymArray(np.ndarray):
             return r.view(SymArray)
         return np.asarray(self).astype(float).round(decimals)
 
+    def _cmp(self, other, op):
+        """elementwise comparison that keeps symbolic results as SymBool objects (numpy would call bool() on each)"""
+        if not has_sym(self) and not has_sym(other):
+            return getattr(np.asarray(self).astype(float), op)(other)
+        o = np.broadcast_to(np.asarray(other, dtype=object), self.shape) if not np.isscalar(other) and not isinstance(other, SymReal) \
+            else None
+        out = np.empty(self.shape, dtype=object)
+        for idx in np.ndindex(*self.shape):
+            a = self[idx]
+            b = other if o is None else o[idx]
+            out[idx] = getattr(a, op)(b) if isinstance(a, SymReal) else (getattr(b, {"__lt__": "__gt__", "__gt__": "__lt__", "__le__": "__ge__", "__ge__": "__le__"}[op])(a)
+                                                                      if isinstance(b, SymReal) else getattr(float(a), op)(float(b)))
+        return out.view(SymArray)
+
+    def __lt__(self, o): return self._cmp(o, "__lt__")
+    def __le__(self, o): return self._cmp(o, "__le__")
+    def __gt__(self, o): return self._cmp(o, "__gt__")
+    def __ge__(self, o): return self._cmp(o, "__ge__")
+
     def mean(self, *a, **k):
         if has_sym(self) and not a and not k:
             return _mean(self)
